@@ -56,12 +56,14 @@ func runC13(c *Ctx) {
 			rets := d.Returns()
 			bad := ""
 			cells := 0
-			for comp := int64(0); comp < 2 && bad == ""; comp++ {
+			for comp := int64(0); comp < 4 && bad == ""; comp++ {
 				for op := int64(0); op < 16 && bad == ""; op++ {
 					for bits := int64(0); bits < 32; bits++ {
 						fin, r1, r2, r3, exp := bits&1, bits>>1&1, bits>>2&1, bits>>3&1, bits>>4&1
 						env := eng.Env{"param#1": op, "param#2": fin, "param#3": r1, "param#4": r2, "param#5": r3, "param#6": exp,
-							"websocket.Conn.enableCompression": comp}
+							"websocket.Conn.enableCompression": comp & 1, "websocket.Conn.remoteCompressionEnabled": comp >> 1 & 1}
+						// permessage-deflate is in force when the option is on and the peer agreed to it
+						deflate := comp == 3
 						cells++
 						var verdict *bool
 						for _, rc := range rets {
@@ -89,13 +91,13 @@ func runC13(c *Ctx) {
 						got := *verdict && accepted[op]
 						// oracle
 						control := op >= 8
-						forbidden := r2 == 1 || r3 == 1 || (r1 == 1 && comp == 0) || (op >= 3 && op <= 7) || op >= 11 ||
+						forbidden := r2 == 1 || r3 == 1 || (r1 == 1 && (!deflate || (op != 1 && op != 2))) || (op >= 3 && op <= 7) || op >= 11 ||
 							(control && fin == 0) || (exp == 1 && (op == 1 || op == 2)) || (exp == 0 && op == 0)
 						if forbidden && got {
-							bad = fmt.Sprintf("accepts a frame RFC 6455 forbids: opcode=%d fin=%d rsv=%d%d%d expectingContinuation=%d compression=%d", op, fin, r1, r2, r3, exp, comp)
+							bad = fmt.Sprintf("accepts a frame RFC 6455 / RFC 7692 forbids: opcode=%d fin=%d rsv=%d%d%d expectingContinuation=%d compression option=%d negotiated=%d (RSV1 is legal only on the first frame of a data message, and only when permessage-deflate was negotiated)", op, fin, r1, r2, r3, exp, comp&1, comp>>1&1)
 						}
-						if !forbidden && r1 == 0 && !got {
-							bad = fmt.Sprintf("rejects a valid frame: opcode=%d fin=%d rsv=000 expectingContinuation=%d compression=%d", op, fin, exp, comp)
+						if !forbidden && !got {
+							bad = fmt.Sprintf("rejects a valid frame: opcode=%d fin=%d rsv=%d00 expectingContinuation=%d compression option=%d negotiated=%d", op, fin, r1, exp, comp&1, comp>>1&1)
 						}
 					}
 				}
